@@ -26,6 +26,11 @@ func main() {
 			return
 		}
 
+		if mon.RaceEnabled {
+			// the -race variant runs only the concurrent family (the single-goroutine differential families gain nothing from it)
+			c.Family("concurrent", c.N(60, 600), famConcurrent(c))
+			return
+		}
 		c.Family("calibrate", nCalibrate, calibrate)
 		c.Family("addr.roundtrip", c.N(3850, 38500), famAddrRoundTrip(c))
 		c.Family("segwit.grid", 17*(gridMaxLen+1)*c.N(1, 3), famSegwitGrid(c))
@@ -36,6 +41,7 @@ func main() {
 		c.Family("wif", c.N(1100, 11000), famWIF(c))
 		c.Family("bip32", c.N(660, 6600), famBIP32(c))
 		c.Family("taproot", c.N(400, 4000), famTaproot(c))
+		c.Family("concurrent", c.N(60, 600), famConcurrent(c))
 
 		c.Require("calibrate.base58", 20)
 		c.Require("calibrate.bech32", 50)
@@ -48,6 +54,8 @@ func main() {
 		c.Require("script.checks", 3000)
 		c.Require("segwit.grid.wrong-checksum-variant", 1000)
 		c.Require("addr.shadow.found", 10)
+		c.Require("addr.pubkey.setformat", 200)
+		c.Require("concurrent.calls", 100000)
 		c.Require("script.computepk", 1000)
 		c.Require("wif.decode.accepted", 1000)
 		c.Require("wif.decode.rejected", 5000)
